@@ -187,7 +187,14 @@ static void chk_batch(const std::vector<T3> &v, long long &ev)
     // in place (res == src)
     std::vector<u64> io = flat_src;
     Goldilocks3::batchInverse((E3 *)io.data(), (E3 *)io.data(), n); ev++;
-    for (size_t i = 0; i < 3 * n; i++) if (io[i] % PR != flat_res[i] % PR) { rep().viol(fmt("C09.wrong.batchInverse_inplace.w%u", W), fmt("w=%u op=batchInverse_inplace n=%zu", W, n), "in-place result differs"); return; }
+    for (size_t i = 0; i < 3 * n; i++)
+        if (io[i] % PR != flat_res[i] % PR)
+        {
+            std::string s = fmt("w=%u op=batchInverse_inplace n=%zu arr=", W, n);
+            for (size_t j = 0; j < n; j++) s += (j ? ";" : "") + t3s(v[j]);
+            rep().viol(fmt("C09.wrong.batchInverse_inplace.w%u", W), s, fmt("in-place result differs from the out-of-place one at flat index %zu", i));
+            return;
+        }
 }
 
 static T3 parse3(const std::string &s)
